@@ -226,9 +226,15 @@ func (c *FnCtx) execInstr(b *ssa.BasicBlock, in ssa.Instruction, st *State, reac
 		mt := x.Type().Underlying().(*types.Map)
 		u.declareFun("mtype", []Sort{SInt}, SInt)
 		c.define(eq(mk(SInt, "mtype", m), u.typeID(mt)))
-		hk, hs, _, _ := c.g.mapHeapKeys(mt)
+		hk, hs, vk, vsrt := c.g.mapHeapKeys(mt)
 		h := c.heap(st, hk, hs)
-		st.heaps[hk] = store(h, m, Term{fmt.Sprintf("((as const %s) false)", arrayElemSort(hs)), arrayElemSort(hs)})
+		emptyHas := Term{fmt.Sprintf("((as const %s) false)", arrayElemSort(hs)), arrayElemSort(hs)}
+		st.heaps[hk] = store(h, m, emptyHas)
+		// an empty map has no key of any value class
+		if name, _, cvs, ok := c.g.cntFun(mt); ok {
+			vals := sel(c.heap(st, vk, vsrt), m)
+			c.define(Term{fmt.Sprintf("(forall ((cv! %s)) (! (= (%s %s %s cv!) 0) :pattern ((%s %s %s cv!))))", cvs, name, emptyHas.S, vals.S, name, emptyHas.S, vals.S), SBool})
+		}
 		ml := c.heap(st, "MLen", arraySort(SInt, SInt))
 		st.heaps["MLen"] = store(ml, m, tZero)
 		c.setReg(x, m)
@@ -281,6 +287,7 @@ func (c *FnCtx) execInstr(b *ssa.BasicBlock, in ssa.Instruction, st *State, reac
 		return true
 	case *ssa.Send:
 		c.g.note("channel send: the ghost flag $Sent is set, the channel itself is not modelled")
+		c.sendObligations(x, st, reach)
 		c.setGhost(st, "Sent", tTrue)
 		return true
 	case *ssa.Select:
@@ -968,3 +975,29 @@ func (c *FnCtx) runDefers(b *ssa.BasicBlock, st *State, reach *Term) {
 }
 
 var _ = strings.Contains
+
+// sendObligations: a channel send is a call site named "chan.send" for callpre clauses
+// ($arg0 the channel, $arg1 the value sent), evaluated in the state before the send.
+func (c *FnCtx) sendObligations(x *ssa.Send, st *State, reach *Term) {
+	for i, cp := range c.spec.CallPres {
+		if !strings.Contains("chan.send", cp.Name) {
+			continue
+		}
+		if c.callPreHit == nil {
+			c.callPreHit = map[int]bool{}
+		}
+		c.callPreHit[i] = true
+		cpEnv := c.envFor(st, c.entry)
+		if cpEnv.vars == nil {
+			cpEnv.vars = map[string]TV{}
+		}
+		cpEnv.vars["$arg0"] = TV{c.term(x.Chan), x.Chan.Type()}
+		cpEnv.vars["$arg1"] = TV{c.term(x.X), x.X.Type()}
+		tv, err := c.evalSpec(cp.E, cpEnv)
+		if err != nil {
+			c.abort("callpre %d: %v", i+1, err)
+			return
+		}
+		c.oblige("callpre", fmt.Sprintf("%d@%s", i+1, c.posString(x.Pos())), *reach, tv.t, "at channel send: "+cp.Text)
+	}
+}
